@@ -65,3 +65,36 @@ def scalar_function(expr: sp.Expr, cse: bool = False):
     evaluate.symbols = syms
     evaluate.expr = unfolded
     return evaluate
+
+
+def fast_scalar_function(expr: sp.Expr, direct_below: int = 40):
+    """Like `scalar_function`, but affordable for sums of thousands of Wigner-D products.
+
+    The distinct ``WignerD`` atoms of the (folded) expression are unfolded and lambdified
+    once each; in the expression they are replaced by dummies, and the remaining skeleton
+    (coefficients, Clebsch-Gordans, lineshapes) is unfolded and lambdified as a polynomial
+    in those dummies.  Mathematically this is ``lambdify(expr.doit())``; expressions with
+    fewer than `direct_below` Wigner-D occurrences take exactly that plain route.
+    """
+    from sympy.physics.quantum.spin import WignerD  # noqa: PLC0415
+
+    atoms = sorted(expr.atoms(WignerD), key=str)
+    if expr.count(WignerD) < direct_below:  # occurrences, not distinct atoms
+        return scalar_function(expr, cse=True)
+    dummies = {a: sp.Dummy(f"D{i}") for i, a in enumerate(atoms)}
+    skeleton = expr.xreplace(dummies).doit()
+    atom_exprs = [a.doit() for a in atoms]
+    atom_syms = sorted({s for e in atom_exprs for s in e.free_symbols}, key=str)
+    atom_fn = sp.lambdify(atom_syms, atom_exprs, "numpy", cse=True)
+    dummy_list = [dummies[a] for a in atoms]
+    skel_syms = sorted(skeleton.free_symbols - set(dummy_list), key=str)
+    skel_fn = sp.lambdify([*dummy_list, *skel_syms], skeleton, "numpy", cse=False)
+    all_syms = sorted(set(atom_syms) | set(skel_syms), key=str)
+
+    def evaluate(values):
+        d_values = atom_fn(*[values[s] for s in atom_syms])
+        return skel_fn(*d_values, *[values[s] for s in skel_syms])
+
+    evaluate.symbols = all_syms
+    evaluate.expr = skeleton
+    return evaluate
